@@ -1275,8 +1275,10 @@ def corruptions(text, rng, k):
     toks = re.findall(r'"[^"]*"|\S+', text)
     lines = text.splitlines()
     out = []
-    for _ in range(k):
-        kind = rng.choice(["del", "dup", "swap", "trunc", "brace", "num", "date", "word", "macro", "nodur"])
+    for n_done in range(k):
+        kind = rng.choice(["del", "dup", "swap", "trunc", "brace", "num", "date", "word", "macro", "nodur", "macro_open", "brace_end"])
+        if n_done == 0:
+            kind = "macro_open"         # every text gets one variant that cannot be grammatical
         if kind in ("del", "dup", "swap") and len(toks) > 3:
             t = list(toks)
             i = rng.randrange(len(t) - 1)
@@ -1312,11 +1314,59 @@ def corruptions(text, rng, k):
                 out.append((kind, text[:m.start()] + rng.choice(["precedes", "duration", "length", "scheduling alap", "flags", "", "milestone"]) + text[m.end():]))
         elif kind == "nodur":
             out.append((kind, re.sub(r'(project\s+\S+\s+"[^"]*"\s+\S+)\s+\+\d+[dwmy]', r'\1', text, count=1)))
+        elif kind == "macro_open":
+            # a macro definition that is never closed (a lost ']', a file cut inside a macro body): everything after it is gone
+            cut = rng.randrange(1, max(2, len(lines)))
+            while cut < len(lines) and (lines[cut - 1].rstrip().endswith(",") or lines[cut][:1] in (" ", "\t")):
+                cut += 1            # between top-level statements
+            body = rng.choice(['task zz "zz" { effort 1h', "effort 3h", 'note "x"', ""])
+            out.append((kind, "\n".join(lines[:cut] + ["macro lost [ " + body] + lines[cut:]) + "\n"))
+        elif kind == "brace_end":
+            j = text.rstrip().rfind("}")
+            if j > 0:
+                out.append((kind, text[:j] + text[j + 1:]))
         elif kind == "macro":
             out.append((kind, text + rng.choice(["\n${undefined_macro}\n", "\nmacro loop [ ${loop} ]\n${loop}\n", "\nmacro a [ ${b} ]\nmacro b [ ${a} ]\ntask zz \"zz\" { ${a} }\n",
                                                  "\nmacro big [ ${big} ${big} ]\n${big}\n"])))
     return out
 
+
+
+def cannot_be_grammatical(text):
+    """Independent lexical oracle (no parser involved): braces or macro brackets that do not balance outside strings and
+    comments.  Such a text has no parse; accepting it means that part of it was silently dropped."""
+    depth_b = depth_s = 0
+    i, n = 0, len(text)
+    while i < n:
+        c = text[i]
+        if c == '"':
+            j = text.find('"', i + 1)
+            if j < 0:
+                return True
+            i = j + 1
+            continue
+        if c == "#" or text.startswith("//", i):
+            j = text.find("\n", i)
+            i = n if j < 0 else j
+            continue
+        if text.startswith("/*", i):
+            j = text.find("*/", i + 2)
+            if j < 0:
+                return True
+            i = j + 2
+            continue
+        if c == "{":
+            depth_b += 1
+        elif c == "}":
+            depth_b -= 1
+        elif c == "[":
+            depth_s += 1
+        elif c == "]":
+            depth_s -= 1
+        if depth_b < 0 or depth_s < 0:
+            return True
+        i += 1
+    return depth_b != 0 or depth_s != 0
 
 
 def dup_leaf_ids(rng, n):
